@@ -895,7 +895,8 @@ def gen_bad_call(ch, p, side):
         p.r.excluded['state-machine-refusal-not-generated'] += 1
         return
     kind = ch.weighted([(3, 'unknown-stream'), (3, 'closed-stream'), (3, 'bad-headers'), (2, 'bad-settings'),
-                        (2, 'role'), (2, 'window'), (2, 'ping-size'), (2, 'oversize-data'), (1, 'wrong-parity')])
+                        (2, 'role'), (2, 'window'), (2, 'ping-size'), (2, 'oversize-data'), (1, 'wrong-parity'),
+                        (3, 'bad-trailers'), (2, 'unencodable-open'), (2, 'low-id-open'), (2, 'bad-priority')])
     p.stats['op:bad-' + kind] += 1
 
     def never(o, base):
@@ -947,6 +948,62 @@ def gen_bad_call(ch, p, side):
             if v != M.PERMIT:
                 return
             p.do_call(side, 'send_headers', (sid, hdrs), {}, M.REFUSE, 'invalid-header-list', never)
+    elif kind == 'bad-trailers':
+        # trailers without END_STREAM, or with a pseudo-header field: refused before anything is sent, and the
+        # stream is where it was (the proper trailers, or more DATA, follow later in the program)
+        sid = pick_sid(ch, p, side, lambda st: st.can_send() and m.headers_position(st) == 'trailers')
+        if sid is None:
+            return
+        if ch.bool():
+            args, kw = (sid, [(b'x-trailer', b'1')]), {}
+        else:
+            args, kw = (sid, [(b'x-trailer', b'1'), (b':status', b'200')]), {'end_stream': True}
+        p.do_call(side, 'send_headers', args, kw, M.REFUSE, 'message:trailers-without-end-stream', never)
+    elif kind == 'unencodable-open':
+        # an opening block with text that cannot be encoded: the call raises (UnicodeEncodeError is a ValueError)
+        # and the id it named has not been used
+        if client:
+            sid = m.hi_local + 2 if m.hi_local else 1
+            v, w = m.send_headers_verdict(sid, 'final', False)
+            if v != M.PERMIT:
+                return
+            hdrs = [(':method', 'GET'), (':scheme', 'https'), (':path', '/'), (':authority', 'a'), ('x-bad', 'v\udcff')]
+            p.do_call(side, 'send_headers', (sid, hdrs), {}, M.REFUSE, 'invalid-header-list', never)
+        else:
+            parent = pick_sid(ch, p, side, lambda st: st.state in (M.OPEN, M.HC_REMOTE) and st.sid % 2 == 1)
+            pid = m.hi_local + 2 if m.hi_local else 2
+            if parent is None or m.push_verdict(parent, pid)[0] != M.PERMIT:
+                return
+            hdrs = [(':method', 'GET'), (':scheme', 'https'), (':path', '/'), (':authority', 'a'), ('x-bad', 'v\udcff')]
+            p.do_call(side, 'push_stream', (parent, pid, hdrs), {}, M.REFUSE, 'invalid-header-list', never)
+    elif kind == 'low-id-open':
+        # an id of our own kind below the highest one in use that no stream has ever had (skipped, or named by a
+        # call that was refused): not available any more
+        unused = [s for s in range(1 if client else 2, m.hi_local, 2) if m.get(s) is None]
+        if not unused:
+            return
+        sid = ch.pick(unused)
+        if client:
+            hdrs = [(':method', 'GET'), (':scheme', 'https'), (':path', '/'), (':authority', 'a')]
+            p.do_call(side, 'send_headers', (sid, hdrs), {}, M.REFUSE, 'stream-id-too-low', never)
+        else:
+            parent = pick_sid(ch, p, side, lambda st: st.state in (M.OPEN, M.HC_REMOTE) and st.sid % 2 == 1)
+            if parent is None or not m.peer_enable_push:
+                return
+            hdrs = [(':method', 'GET'), (':scheme', 'https'), (':path', '/'), (':authority', 'a')]
+            p.do_call(side, 'push_stream', (parent, sid, hdrs), {}, M.REFUSE, 'stream-id-too-low', never)
+    elif kind == 'bad-priority':
+        # priority arguments outside their range on an opening request: refused before any state is touched
+        if not client:
+            return
+        sid = m.hi_local + 2 if m.hi_local else 1
+        v, w = m.send_headers_verdict(sid, 'final', False)
+        if v != M.PERMIT:
+            return
+        hdrs = [(':method', 'GET'), (':scheme', 'https'), (':path', '/'), (':authority', 'a')]
+        kw = ch.pick([{'priority_weight': 0}, {'priority_weight': 257}, {'priority_depends_on': sid},
+                      {'priority_weight': -1}])
+        p.do_call(side, 'send_headers', (sid, hdrs), kw, M.REFUSE, 'invalid-priority', never)
     elif kind == 'bad-settings':
         k, v = ch.pick(BAD_SETTINGS)
         good = ch.pick([1, 4])
